@@ -144,7 +144,7 @@ func recvNamed(f *ssa.Function) *types.Named {
 }
 
 func checkC17(p *Prog, r *Report) {
-	r.Explain("STRTOTAL: every index, slice, division and type assertion in every String/Extension/TagName/Name method of a library type and in the library functions it calls is an obligation for the E3 bounds prover, with the receiver ranging over its whole type (negative values of signed types included) and no credit for recover frames; slices of a name string by an offset table are discharged by IDXTBL (table non-decreasing, last entry within the string, index+1 proved in range). NILF: a call through a function value in these functions is dominated by its nil test or goes through a gap-free package-level function table. STRFOLD: the stringer of every integer-based type is constant-folded (loop-free decision tree over immutable tables: comparisons, table/map/string indexing, returns) on every declared constant and on the boundary values of the type; a fold that ends in a panic is a violation with the value as witness. DOCNAME: where the type's doc comment lists N: \"Name\" rows the folded name of N equals the documented one. RT: FromString(String(v)) == v for every declared image type and IdentifyNamespace(String(ns)) == ns for every declared XMP namespace.")
+	r.Explain("STRTOTAL: every index, slice, division and type assertion in every String/Extension/TagName/Name method of a library type and in the library functions it calls is an obligation for the E3 bounds prover, with the receiver ranging over its whole type (negative values of signed types included) and no credit for recover frames; slices of a name string by an offset table are discharged by IDXTBL (table non-decreasing, last entry within the string, index+1 proved in range). NILF: a call through a function value in these functions is dominated by its nil test or goes through a gap-free package-level function table. INITORD: walking each package initialiser in the compiler's order, no initialiser calls (through static calls or the String/Error methods of values boxed for fmt) a function that reads a table of the same package initialised later. NARROW: a stringer never narrows its receiver to a smaller integer type before looking it up unless the value is proved to fit (two values that differ only in the dropped bits would get the same name). STRFOLD: the stringer of every integer-based type is constant-folded (loop-free decision tree over immutable tables: comparisons, table/map/string indexing, returns) on every declared constant and on the boundary values of the type; a fold that ends in a panic is a violation with the value as witness. DOCNAME: where the type's doc comment lists N: \"Name\" rows the folded name of N equals the documented one. RT: FromString(String(v)) == v for every declared image type and IdentifyNamespace(String(ns)) == ns for every declared XMP namespace.")
 	r.Trusted("map reads never panic", "fmt.Sprintf with a constant verb-free format returns the format", "strings.ToLower on ASCII", "strings/bytes Index*, LastIndex*: -1 <= r <= len(s)-1 (<= len(s) for substring searches)")
 	ms := strMethods(p)
 	r.Extra("stringer_methods", len(ms))
@@ -165,6 +165,8 @@ func checkC17(p *Prog, r *Report) {
 	}
 	ruleTA(p, r, fs, emptyCont)
 	ruleNILF(p, r, fs) // a lookup through a table of functions must not meet an unset entry
+	ruleNarrow(p, r, ms)
+	ruleInitOrd(p, r)
 	r.Floor("STRTOTAL", 20)
 
 	fd := &folder{p: p}
@@ -334,5 +336,47 @@ func ruleRoundTrip(p *Prog, r *Report, fd *folder, rule, rel, typeName, format, 
 		} else {
 			r.OK(rule, key, at, fmt.Sprintf("%q parses back to %d", name, c.val))
 		}
+	}
+}
+
+// ruleNarrow: in a stringer, a narrowing integer conversion of (a value derived from) the receiver must be proved
+// lossless at that point; otherwise values outside the narrow type alias documented ones.
+func ruleNarrow(p *Prog, r *Report, ms []*ssa.Function) {
+	e := p.E3()
+	for _, f := range ms {
+		if len(f.Params) == 0 || !isIntType(f.Params[0].Type()) {
+			continue
+		}
+		recv := f.Params[0]
+		fromRecv := func(v ssa.Value) bool {
+			for i := 0; i < 6; i++ {
+				switch x := v.(type) {
+				case *ssa.Parameter:
+					return x == recv
+				case *ssa.Convert:
+					v = x.X
+				case *ssa.ChangeType:
+					v = x.X
+				default:
+					return false
+				}
+			}
+			return false
+		}
+		eachInstr(f, func(b *ssa.BasicBlock, _ int, in ssa.Instruction) {
+			cv, ok := in.(*ssa.Convert)
+			if !ok || !narrowing(cv) || !fromRecv(cv.X) {
+				return
+			}
+			key := fmt.Sprintf("%s | %s narrowed to %s", fnName(f), recv.Name(), cv.Type())
+			at := p.posStr(instrPos(cv))
+			tr := typeRange(cv.Type())
+			t := e.termOf(cv.X)
+			if e.ProveLE(b, t, zeroT, tr.hi) && e.ProveLE(b, zeroT, t, -tr.lo) {
+				r.OK("NARROW", key, at, "the value is proved to fit the narrower type here")
+			} else {
+				r.Bad("NARROW", key, at, fmt.Sprintf("the receiver is cut down to %s before the lookup without a range check: every value that differs from a documented one only in the dropped bits gets that value's name instead of the fallback", cv.Type()))
+			}
+		})
 	}
 }
